@@ -1,6 +1,6 @@
 //! C18 — reference lookup and iteration match git (E1).
-//! Every subset (<= k) of a 12-name universe x placement per ref {loose, packed, both with a stale packed value} is materialised as a
-//! git directory; `file::Store::iter().all()/prefixed()` and `try_find` for 26 short/partial/full names are compared with a reference
+//! Every subset (<= k) of a 14-name universe x placement per ref {loose, packed, both with a stale packed value} is materialised as a
+//! git directory; `file::Store::iter().all()/prefixed()` and `try_find` for 30 short/partial/full names are compared with a reference
 //! model (byte-sorted map with loose precedence; git's ref_rev_parse_rules) and, for a smaller bound, directly with
 //! `git for-each-ref` and `git cat-file --batch-check` (name resolution; every value is a distinct blob id, so the id identifies the ref).
 use bstr::{BString, ByteSlice};
@@ -10,7 +10,7 @@ use std::collections::BTreeMap;
 use std::path::{Path, PathBuf};
 use vkit::{bad, enumerate, ok, ok_trivial, Run, Verdict};
 
-const UNIVERSE: [&str; 12] = [
+const UNIVERSE: [&str; 14] = [
     "refs/heads/a",
     "refs/heads/a-b",
     "refs/heads/a.b",
@@ -23,14 +23,18 @@ const UNIVERSE: [&str; 12] = [
     "refs/remotes/o/a",
     "refs/remotes/a/HEAD",
     "refs/a",
+    "refs/heads/a/b/c",
+    "refs/remotes/a/b/c",
 ];
 
-const QUERIES: [&str; 26] = [
+const QUERIES: [&str; 30] = [
     "a", "a-b", "a.b", "a/b", "a/b-c", "a0", "b", "o/a", "o", "c", "heads/a", "heads/a-b", "heads/a/b", "tags/a", "A", "remotes/o/a", "remotes/a", "remotes/a/HEAD",
     "refs/heads/a", "refs/heads/a-b", "refs/heads/a/b", "refs/tags/a", "refs/remotes/o/a", "refs/a", "refs/heads/c", "a/HEAD",
+    "a/b/c", "heads/a/b/c", "remotes/a/b/c", "refs/heads/a/b/c",
 ];
 
-const PREFIXES: [&str; 3] = ["refs/heads", "refs/tags", "refs/remotes"];
+/// whole directories, a prefix that is a directory in some stores and a partial name in others, partial names at two depths
+const PREFIXES: [&str; 7] = ["refs/heads", "refs/tags", "refs/remotes", "refs/heads/a", "refs/he", "refs/remotes/a/b", "refs/heads/a/b-"];
 
 #[derive(Serialize, Deserialize, Hash, Clone, Debug)]
 struct Case {
@@ -234,7 +238,14 @@ fn eval(c: &Case, template_objects: &Path) -> Verdict {
         failures.push(m);
     }
     for p in PREFIXES {
-        let want: Listing = want_all.iter().filter(|(n, _)| n.starts_with(format!("{p}/").as_bytes())).cloned().collect();
+        // documented semantics of prefixed(): a prefix naming an existing (loose) directory means "everything below it" ("refs/heads" == "refs/heads/"),
+        // anything else is a plain string prefix of the full name (pinned by gix-ref's own partial-prefix tests)
+        let is_dir = dir.path().join(p).is_dir();
+        let want: Listing = want_all
+            .iter()
+            .filter(|(n, _)| if is_dir { n.starts_with(format!("{p}/").as_bytes()) } else { n.starts_with(p.as_bytes()) })
+            .cloned()
+            .collect();
         let got = match platform.prefixed(Path::new(p)) {
             Ok(it) => match listing_of(it) {
                 Ok(l) => l,
@@ -243,7 +254,14 @@ fn eval(c: &Case, template_objects: &Path) -> Verdict {
             Err(e) => return bad("iter-error", format!("prefixed({p}): {e}")),
         };
         if let Err(m) = compare_listing(&format!("iter().prefixed({p:?})"), &got, &want, c) {
-            failures.push(m);
+            // a disagreement that only concerns what the prefix selects (not order/duplicates of the selected refs) gets its own class
+            let whole_dirs = ["refs/heads", "refs/tags", "refs/remotes"];
+            if !whole_dirs.contains(&p) && !m.starts_with("loose-dir-order:") {
+                let kind = if is_dir { "prefixed-directory-selection" } else { "prefixed-partial-name-selection" };
+                failures.push(format!("{kind}: {}", m.split_once(": ").map_or(m.as_str(), |x| x.1)));
+            } else {
+                failures.push(m);
+            }
         }
     }
     // lookups are reported before iteration problems only if iteration is fine; both are always evaluated
@@ -330,15 +348,16 @@ pub fn run(run: &'static Run) {
     let k_all = run.pick(3, 4);
     run.rule(format!(
         "universe {UNIVERSE:?}; every subset of <= {k_all} names without directory/file conflicts x placement per ref {{loose, packed, loose + stale packed value}}; \
-         observations: iter().all(), iter().prefixed(refs/heads|refs/tags|refs/remotes), try_find for {} short/partial/full names ({QUERIES:?}). \
+         observations: iter().all(), iter().prefixed({PREFIXES:?}), try_find for {} short/partial/full names ({QUERIES:?}). \
          oracle: byte-sorted map with loose precedence + git's ref_rev_parse_rules; additionally `git for-each-ref` and `git cat-file --batch-check` on every store of \
          <= 1 refs (all placements) and 2 refs (quick: the two mixed placements loose+packed / packed+loose; thorough: all placements). \
          non-trivial = store holds >= 2 refs",
         QUERIES.len()
     ));
-    run.assume("git 2.39.5: for-each-ref prints refs in byte order of the full name with the loose value; prefixed listing = names starting with '<prefix>/' (git for-each-ref <prefix> semantics, derived from the full listing)");
+    run.assume("git 2.39.5: for-each-ref prints refs in byte order of the full name with the loose value; prefixed listing is derived from the full listing");
+    run.assume("prefixed(p) follows gitoxide's documented semantics, which deliberately differ from `git for-each-ref <p>` for partial names: if <git-dir>/<p> is a directory the result is every ref below it ('refs/heads' == 'refs/heads/', same as git), otherwise p is a plain string prefix of the full name (gix-ref's own tests pin `refs/heads/m` -> refs/heads/main; git would match whole path components only)");
     run.assume("name resolution oracle: every ref value is a distinct blob id, so the id `git cat-file --batch-check <name>` prints identifies the ref git's DWIM rules chose");
-    run.assume("ref sets with a directory/file conflict (refs/heads/a next to refs/heads/a/b) are excluded: git never produces them; all values are direct (no symbolic refs); prefixes are whole directories");
+    run.assume("ref sets with a directory/file conflict (refs/heads/a next to refs/heads/a/b) are excluded: git never produces them; all values are direct (no symbolic refs)");
     run.budget_secs(run.pick(40.0, 600.0));
 
     // template object database holding every value as a blob
